@@ -253,6 +253,8 @@ def run(ctx, rep):
             rep.require(good, "wiring", fnx["qual"], c.where(), "NoteIterator::new(file endianness, file class, %s as usize, ..)" % want_align[short],
                         "%s constructs the note iterator with (%s, %s, %s)" % (fnx["qual"], show(a[0]), show(a[1]), show(a[2])))
     rep.floor("wiring", "NoteIterator::new call sites", n_sites, 4 if "std" in F["config"]["features"] else 2)
+    from ._common import premise
+    premise(ctx, rep, "C02", "NoteHeader / NoteGnuAbiTag decode per the note format", rules={"decode", "decode-reads", "decode-size", "decode-errors", "derived", "premise"}, where="src/note.rs")
     rep.trusted_base += ["C02: NoteHeader / NoteGnuAbiTag decoding; C03 for the section/segment buffer handed to the iterator",
                         "core: slice pattern matching against a constant, str::from_utf8, trim_end_matches"]
 
